@@ -11,7 +11,7 @@ PROPERTY_FILE = 'Properties/C14.v'
 # generated model parts (translate/) this property's model / proofs really depend on
 GEN_DEPS = ['TempTable', 'QuantityImpl']
 MODEL_TARGETS = ['Corr/C14Corr.vo']
-PROOF_TARGETS = ['Proofs/C14Proofs.vo']
+PROOF_TARGETS = ['Proofs/GenQuantityEq.vo', 'Proofs/C14Proofs.vo']
 COQ_HEADER = ("From QV Require Import Model.Num Model.Rounding Model.Quantity Model.Table "
               "Corr.Common Corr.Obs Corr.QtyCorr Corr.C14Corr.")
 COQ_CHECK = 'c14_check'
